@@ -14,4 +14,8 @@ if [ -n "$need" ]; then
   PIP_NO_INDEX=1 $PY -m pip install --quiet --no-index --find-links "$WH" --target "$HERE/.deps" $need || exit 1
 fi
 $PY -c "import hypothesis, jsonschema, referencing, numpy" || exit 1
+# fidelity self-test of the simulated primitives (exhaustive schedules of 17 tiny programs + real threads), ~2 s
+if [ "$1" = "--selftest" ]; then
+  PYTHONPATH="$HERE:$HERE/.deps" $PY -m vf.sim.selftest >/dev/null || { echo "simulation self-test failed"; exit 1; }
+fi
 exit 0
